@@ -110,22 +110,25 @@ CLAIMS = {
         "technique": "bounded model checking of the real code (Kani/CBMC): step-determinism / purity lemmas, composition on paper",
     },
     "C02": {
-        "text": "The real line-atomic head writer (Call::write -> try_write_prelude, with core::fmt) is decided for a concrete 27-byte head "
-                "(request line + one header) from each resumption point and for EVERY output buffer size 0..=32: whole lines only, as many "
-                "as fit, byte-exact, OutputOverflow without side effect exactly when the next line does not fit, nothing after completion; "
-                "Host / framing-header insertion flags are decided by the analyze harnesses (C17 family) and the despite-method harness.",
+        "text": "Decided: once the head is complete, further calls of Flow::<SendRequest>::write / Call::write emit nothing and change "
+                "nothing (every writer mode, every buffer size 0..=8); the head is followed by the state the graph prescribes; Host / "
+                "framing-header insertion flags of the request analysis (C17 cells) and the default chunked framing for despite-method "
+                "requests. NOT decided: the byte-level serialisation of the head (line atomicity, OutputOverflow) - the writer with "
+                "core::fmt does not finish under CBMC even on a concrete 27-byte head.",
         "design_ref": "DESIGN.md §3 C02",
-        "note": "one header line; header-sequence level (caller-added first, suppression) only on minimal scenarios (C13/C16 harnesses)",
-        "technique": "bounded model checking of the real code (Kani/CBMC): symbolic buffer size over a concrete small head",
+        "note": "reduced claim, see text; header-sequence level (caller-added first, suppression) only on minimal scenarios (C13/C16 harnesses)",
+        "technique": "bounded model checking of the real code (Kani/CBMC): inductive step from constructed flow states",
     },
     "C11": {
-        "text": "Flow::<Await100>::try_read_100 and hoot's parser glue are decided for every outcome class of httparse that does not build "
-                "a Response (incomplete input at three depths, response with fields, malformed input, unsupported version): nothing consumed, "
-                "flags and Not100Continue exactly as stated; both edges out of Await100 with successor usability; the Expect flag at construction. "
-                "The two outcomes that build a Response (bare 100, other bare status) exceed the budget (http::response::Builder + drop glue) "
-                "and are not decided.",
+        "text": "Flow::<Await100>::try_read_100 is decided for every outcome class of the interim head: through hoot's real parser glue "
+                "for incomplete input at three depths, a response with fields and malformed input; with the glue scripted as a whole for "
+                "complete header-less heads (100 on HTTP/1.1 and 1.0, any other 1xx, any final status): consumed exactly / nothing, body "
+                "still due / cancelled, Not100Continue exactly as stated; both edges out of Await100 with successor usability; the Expect "
+                "flag at construction. Every cell feeds the real bytes of its scenario, so a counterexample is replayed end to end through "
+                "the real httparse.",
         "design_ref": "DESIGN.md §3 C11",
-        "note": "httparse replaced by a deterministic script environment under a stated contract (trusted); late-100 skipping not decided",
+        "note": "httparse (and for complete heads hoot's parser glue) replaced by a deterministic script environment under a stated "
+                "contract; late-100 skipping in RecvResponse not decided",
         "technique": "bounded model checking of the real code (Kani/CBMC) with an environment stub enumerating httparse's outcome classes",
     },
     "C12": {
